@@ -114,6 +114,10 @@ fn resolve_iteratively(
         }
     }
 
+    // The confirming pass can only be strict when the enclosing
+    // pass is: while the caller is still guessing (e.g. an argument
+    // is a forward reference currently taken as zero), what looks
+    // like an error here may disappear with the final values
     let result = resolve_once(
         opts,
         fileserver,
@@ -124,7 +128,7 @@ fn resolve_iteratively(
         position_at_start,
         labels,
         false,
-        true)?;
+        !ctx.can_guess())?;
 
     if !result.unstable
     {
